@@ -185,6 +185,62 @@ def explore(ctx, thorough):
     return W, fns, bad, n
 
 
+def reader_reuse(ctx, report, rule="R-DOC-REUSE", clause="1"):
+    """C10: one reader object per format reading document A, document B, document A again (the documents are what the folded
+    writers give for the caption sets above): every result equals what a fresh reader returns for that document, and two
+    results share no caption or node object"""
+    W = World(ctx)
+    labels = ["plain", "italics", "empty lines", "layout groups"]
+    bad = []
+    n = 0
+    fn0 = None
+    for fmt, (path, _, rname) in FORMATS.items():
+        cls = ctx.index.get_class(path, rname)
+        fn0 = fn0 or cls.find_method("read")
+        report.covered(cls.find_method("read"))
+        try:
+            docs = [W.write(fmt, W.caption_set(SETS[l])) for l in labels]
+        except (FoldRaise, AnalysisError) as e:
+            raise AnalysisError(f"{fmt}: the writer cannot be folded to make documents for the reader: {e}")
+        for k in range(len(docs)):
+            a, b = docs[k], docs[(k + 1) % len(docs)]
+            n += 1
+            case = {"reader": rname, "documents": [labels[k], labels[(k + 1) % len(docs)], labels[k]]}
+            try:
+                _, me = W._obj(path, rname)
+                read = cls.find_method("read")
+                r1 = W.F.call_function(read, [a], {}, self_value=me)
+                r2 = W.F.call_function(read, [b], {}, self_value=me)
+                r3 = W.F.call_function(read, [a], {}, self_value=me)
+                fa, fb = W.read(fmt, a), W.read(fmt, b)
+                k1, k2, k3, ka, kb = cues(r1), cues(r2), cues(r3), cues(fa), cues(fb)
+            except FoldRaise as e:
+                bad.append(dict(case, raises=f"{e.exc_name}: {e}"[:140]))
+                continue
+            except AnalysisError as e:
+                raise AnalysisError(f"{rname}.read (one object, three documents) cannot be folded: {e}")
+            if k1 != ka or k3 != ka:
+                bad.append(dict(case, why="a read of the first document differs from a fresh reader's", first=str(k1)[:160],
+                                third=str(k3)[:160], fresh=str(ka)[:160]))
+            elif k2 != kb:
+                bad.append(dict(case, why="the second document read with a used reader differs from a fresh reader's",
+                                used=str(k2)[:200], fresh=str(kb)[:200]))
+            else:
+                from .foldutil import captions_by_language
+
+                def objs(r):
+                    out = set()
+                    for caps in captions_by_language(r, what="reader reuse").values():
+                        for c in caps:
+                            out.add(id(c))
+                            out.update(id(nd) for nd in c.attrs["nodes"])
+                    return out
+                if objs(r1) & objs(r3) or objs(r1) & objs(r2):
+                    bad.append(dict(case, why="two results share caption / node objects"))
+    report.check(not bad, rule, fn0, f"five readers, one object each reading A, B, A over {len(labels)} documents ({n} sequences): every "
+                 "result equals a fresh reader's and shares no caption or node object with another result", {"sequences": n, "mismatches": bad[:3]}, clause)
+
+
 def html_unescape(t):
     import html
     return html.unescape(t)
